@@ -232,6 +232,9 @@ func (w *World) faultTouched(cs *connState) bool {
 
 func (h *handler) OnTraffic(c gnet.Conn) (action gnet.Action) {
 	w := h.w
+	if w.p.UDP != nil {
+		return w.onTrafficUDP(c)
+	}
 	cs := w.byConn[c]
 	if cs == nil {
 		w.violate("C04", "traffic-without-open", "OnTraffic for a connection that never had OnOpen")
